@@ -80,6 +80,7 @@ var probes = func() []ir.Value {
 	add(U...)
 	add(UNested...)
 	add(UWrap...)
+	add(ir.Ent("A", "bc"), ir.Ent("Ab", "c"), ir.Ent("Abc", ""), ir.Ent("A", "b"), ir.Ent("Ab", ""), ir.Ent("a", "bc"), ir.Ent("A::b", "c"), ir.Str("Abc"))
 	add(ir.Long(3), ir.Long(4), ir.Str(""), ir.Str("0"), ir.Ent("T0", "a"), ir.Ent("T0", "1"), ir.Rec(ir.F("a", ir.Long(1))), ir.Rec(ir.F("a", ir.Bool(true))),
 		ir.IP([]byte{0, 0, 0, 1}, 32), ir.Decimal(2), ir.Datetime(2), ir.Duration(2), ir.Set(ir.Bool(true), ir.Long(1)), ir.Set(ir.Long(2)))
 	return out
@@ -1021,6 +1022,12 @@ func enumSeqs(t *testing.T, name string, u []ir.Value, maxLen int) {
 func TestSeqColliding(t *testing.T) { enumSeqs(t, "seq-colliding", U, ev.Pick(4, 5)) }
 func TestSeqNested(t *testing.T)    { enumSeqs(t, "seq-nested", UNested, ev.Pick(3, 4)) }
 func TestSeqWrap(t *testing.T)      { enumSeqs(t, "seq-wrap", UWrap, ev.Pick(3, 4)) }
+
+// UEnt: entity uids whose type and id concatenate to the same bytes (an entity uid's hash covers type and id), next to
+// uids that differ in one letter or only in case, and a non-entity.
+var UEnt = []ir.Value{ir.Ent("A", "bc"), ir.Ent("Ab", "c"), ir.Ent("Abc", ""), ir.Ent("A", "b"), ir.Ent("Ab", ""), ir.Ent("a", "bc"), ir.Ent("A::b", "c"), ir.Str("Abc"), ir.Long(1)}
+
+func TestSeqEntities(t *testing.T) { enumSeqs(t, "seq-entities", UEnt, ev.Pick(3, 4)) }
 
 // eqUniverse: values and alternative constructions of the same value (member order, duplicates, field order).
 var eqUniverse = func() []ir.Value {
